@@ -244,13 +244,16 @@ LeafDecl == Decl(70000, TagVariable, FALSE, <<Spec1(AtConst, "DW_FORM_data1")>>)
 \* an entry whose three values have widths that depend on the unit's parameters (offset size, address size, version): units of
 \* different parameters that SHARE an abbreviation table must each read them with their own widths
 SizedDecl == Decl(5, TagVariable, FALSE, <<Spec1(AtName, "DW_FORM_strp"), Spec1(17, "DW_FORM_addr"), Spec1(13108, "DW_FORM_ref_addr")>>)
+\* an intra-file unit import (dwz style): DW_TAG_imported_unit with DW_AT_import in DW_FORM_ref_addr - an entry like any other
+ImportDecl == Decl(6, 61, FALSE, <<Spec1(24, "DW_FORM_ref_addr")>>)
 SmallTree(ctx) == << [code |-> 300, nullenc |-> <<>>, attrs |-> <<A("DW_FORM_data1", N(9)), A("DW_FORM_string", B(<<117>>))>>],
                      [code |-> 70000, nullenc |-> <<>>, attrs |-> <<A("DW_FORM_data1", N(1))>>],
                      [code |-> 5, nullenc |-> <<>>, attrs |-> <<A("DW_FORM_strp", N(StrOffs[1])), A("DW_FORM_addr", N(4096)), A("DW_FORM_ref_addr", N(11))>>],
+                     [code |-> 6, nullenc |-> <<>>, attrs |-> <<A("DW_FORM_ref_addr", N(HdrLen(ctx)))>>],
                      [code |-> 70000, nullenc |-> <<>>, attrs |-> <<A("DW_FORM_data1", N(2))>>], NullDie >>
 UnitKinds(ctx) == IF ctx.ver >= 5 THEN {"DW_UT_compile", "DW_UT_partial", "DW_UT_skeleton", "DW_UT_split_compile", "DW_UT_type", "DW_UT_split_type"}
                   ELSE {"legacy"}
-MkUnit(ctx, ut, aoff) == [U0 EXCEPT !.ctx = ctx, !.utype = ut, !.abbrevOff = aoff, !.abbrevs = <<UnkDecl, LeafDecl, SizedDecl>>, !.dies = SmallTree(ctx),
+MkUnit(ctx, ut, aoff) == [U0 EXCEPT !.ctx = ctx, !.utype = ut, !.abbrevOff = aoff, !.abbrevs = <<UnkDecl, LeafDecl, SizedDecl, ImportDecl>>, !.dies = SmallTree(ctx),
                                     !.typeoff = IF ut \in {"DW_UT_type", "DW_UT_split_type", "tu4"} THEN 0 ELSE 0]
 \* typeoff is fixed up at emission (it designates the second die of the unit)
 UnitsSet ==
